@@ -35,7 +35,7 @@ var registry = []*HarnessSpec{
 	{Prop: "C08", Name: "zzH08d", Pkg: pkgCorerad, Tier: "quick", MonoTime: true, NoNative: true, Bounds: "Advertiser.Run with all its real goroutines over a scripted socket; stopped while idle / with a solicited response pending / with a solicited response in flight; terminate or reload"},
 	{Prop: "C08", Name: "zzH08b", Pkg: pkgCorerad, Tier: "quick", Bounds: "signalTask.Run for SIGINT / SIGTERM / SIGHUP with a cancel function that reads the recorded decision"},
 	{Prop: "C20", Name: "zzH08b", Pkg: pkgCorerad, Tier: "quick", Bounds: "signalTask.Run for SIGINT / SIGTERM / SIGHUP with a cancel function that reads the recorded decision"},
-	{Prop: "C20", Name: "zzH20a", Pkg: pkgCorerad, Tier: "quick", Params: map[string]int{"interfaces": 3}, Bounds: "3 interfaces, each advertise / monitor / neither; debug address set or empty"},
+	{Prop: "C20", Name: "zzH20a", Pkg: pkgCorerad, Tier: "quick", Params: map[string]int{"interfaces": 3, "interfaces@thorough": 5}, Bounds: "3 (thorough 5) interfaces, each advertise / monitor / neither; debug address set or empty"},
 	{Prop: "C20", Name: "zzH20b", Pkg: pkgCorerad, Tier: "quick", Unwind: 64, Bounds: "0..40 or unbounded *net.OpError results followed by ErrServerClosed / another error / cancellation"},
 	{Prop: "C20", Name: "zzH20e", Pkg: pkgCorerad, Tier: "quick", Bounds: "watcherTask.Run with a watcher returning nil / os.ErrNotExist / wrapped os.ErrNotExist / another error"},
 	{Prop: "C20", Name: "zzH08f", Pkg: pkgCorerad, Tier: "quick", Bounds: "Signals() and isTerminal for each of its elements"},
@@ -89,9 +89,9 @@ var registry = []*HarnessSpec{
 	{Prop: "C04", Name: "zzH08a", Pkg: pkgCorerad, Tier: "quick", Bounds: "final RA path"},
 	{Prop: "C04", Name: "zzH04seq", Pkg: pkgCorerad, Tier: "quick", Bounds: "two consecutive sends with independently symbolic forwarding reads"},
 	{Prop: "C08", Name: "zzH08a", Pkg: pkgCorerad, Tier: "quick", Bounds: "one shutdown call: terminate/reload, unicast_only, forwarding, write failure symbolic"},
-	{Prop: "C09", Name: "zzH09a", Pkg: pkgCorerad, Tier: "quick", Params: map[string]int{"k": 8, "k@thorough": 12}, Bounds: "0..k-1 consecutive messages with any hop limit != 255 followed by a valid one (k=8, thorough 12)"},
+	{Prop: "C09", Name: "zzH09a", Pkg: pkgCorerad, Tier: "quick", Params: map[string]int{"k": 8, "k@thorough": 32}, Bounds: "0..k-1 consecutive messages with any hop limit != 255 followed by a valid one (k=8, thorough 32)"},
 	{Prop: "C10", Name: "zzH10c", Pkg: pkgCorerad, Tier: "quick", Bounds: "0..6 read timeouts followed by a message, a non-timeout net.Error or another error"},
-	{Prop: "C18", Name: "zzH18", Pkg: pkgCorerad, Tier: "quick", Bounds: "one message: RS/NS/NA or an RA with symbolic header, 0..2 prefix options (all fields symbolic, whole-second lifetimes incl. 0 and 2^32-1 s) and an unknown option; receipt instant any wall-clock ns value; sender an opaque string"},
+	{Prop: "C18", Name: "zzH18", Pkg: pkgCorerad, Tier: "quick", Params: map[string]int{"prefixes": 2, "prefixes@thorough": 4}, Bounds: "one message: RS/NS/NA or an RA with symbolic header, 0..2 (thorough 0..4) prefix options (all fields symbolic, whole-second lifetimes incl. 0 and 2^32-1 s) and an unknown option; receipt instant any wall-clock ns value; sender an opaque string"},
 	{Prop: "C18", Name: "zzH18seq", Pkg: pkgCorerad, Tier: "quick", Bounds: "two messages through Monitor.monitor (real Listen and callback) from one link-local / global / unique-local sender with / without a zone: an RA followed by an RA / RS / NA; router and prefix lifetimes, flags symbolic"},
 	{Prop: "C12", Name: "zzH12wire", Pkg: pkgCorerad, Extra: []string{pkgConfig}, Tier: "quick", Bounds: "one accepted advertising interface with the stanzas of one kind at a time (header fields; static prefix; static route; RDNSS + DNSSL; MTU + captive portal + PREF64), all durations and header fields symbolic (real parser), forwarding on/off; ndp.MarshalMessage then ndp.ParseMessage through their real bodies"},
 	{Prop: "C12", Name: "zzH12wireDep", Pkg: pkgCorerad, Extra: []string{pkgConfig}, Tier: "quick", MonoTime: true, Bounds: "one deprecated prefix or one deprecated route, lifetimes symbolic (real parser), arbitrary epoch <= now (monotonic readings)"},
